@@ -26,7 +26,9 @@ THEOREMS = ['Fsic.C18.' + n for n in [
     'failed_op_preserves_state', 'failed_replace_is_prefix', 'read_op_preserves_state',
     'resolution_depends_only_on_aliases', 'plain_twin_agrees', 'plain_twin_history', 'plain_is_twin',
     'ctor_routes_resolve_keys', 'from_dataframe_alias_columns', 'chain_label_resolves', 'from_dataframe_chain_labels',
-    'export_import_round_trip', 'round_trip_same_values', 'resolve_reencode', 'constructor_reencode', 'ctor_reencode']]
+    'export_import_round_trip', 'round_trip_same_values', 'resolve_reencode', 'constructor_reencode', 'ctor_reencode',
+    'label_not_resolved', 'alias_named_label_not_resolved', 'label_access_absolute', 'label_slice_absolute',
+    'resolving_labels_reads_target', 'resolving_labels_differs', 'resolving_labels_differs_at_witness']]
 RULE = ('(F) guard: 4 fixed cyclic/self maps are constructed in subprocesses (3 s limit, in parallel) before anything '
         'else; a call that does not return is a violation and keeps cyclic/self maps out of the in-process parts of '
         'that run. (A) every alias dict with keys from 4 alias names and values from those names + 2 variables + 1 '
@@ -112,11 +114,30 @@ RULE = ('(F) guard: 4 fixed cyclic/self maps are constructed in subprocesses (3 
         'result and full state after every operation must be those of the plain-str spelling (unless the class without the '
         'mixin itself tells the forms apart on that path) and those of the plain class in the same form; _resolve_alias of '
         'every name in every form vs the model. '
+        '(L) spans labelled with NAMES (harness/alias_labels.py): models (hand-written, parser-built), plain containers and '
+        'linkers with an alias-enabled submodel whose span - a list, tuple, NumPy array of str or pandas Index of 3-8 '
+        'distinct strings - has labels spelt like aliases (with / without the label of their target), like canonical '
+        'variable names, like alias targets that are no variable, like names that map to themselves, like aliases / '
+        'variables of the linker\'s submodel, and plain labels; 6-14 operations per object: m[name, l], m[name, a:], '
+        'm[name, :b], m[name, a:b], m[name, :] each with step None / 1 / 2 / 3 (rarely <= 0), read and write (scalar, '
+        'sequence of the right / of the wrong length), the label in the key a plain str (80%) or another str form of (K), '
+        '12% of them names that are NOT labels (first of all an alias of a label), the first component a canonical name, '
+        'an alias, an alias of an alias, an alias of an undefined name or an unknown name; whole-series reads / writes in '
+        'between; eval of X[`l`], X[`a`:`b`:c] ...; Model(span, **alias_kw), Model.from_dataframe(frame indexed by the '
+        'labels - list / Index / array), to_dataframe(use_aliases=True), reindex onto a reordered / shortened / extended '
+        'span. After EVERY operation: (a) result (bytes + dtype or exception family) and full state vs the class WITHOUT '
+        'the mixin driven through the canonical name and the SAME label; (b) absolutely, from the text: the result is '
+        'element labels.index(l) / elements range(index(a), index(b)+1, c) of the series of the variable the name '
+        'resolves to, a write changes exactly those cells of exactly that series (all series compared by bytes + dtype), '
+        'a label outside the span is KeyError and changes nothing; new objects: span == the labels, new[name, l] is the '
+        'datum given for l; the exported frame\'s index == the labels; the integer history also vs the model '
+        '(alias_label_history = aliased (labelOps span), labels ARE names there; a fixed witness checks that the model of '
+        'a mixin that resolves labels too answers differently). '
         'distinct = distinct (part, alias map, preferences, '
         'history); non-trivial = the map is not empty and (D, E) the case goes through at least one declared name, '
         '(H) at least one declared map and two instances, (I) at least one operation through a declared alias and at '
         'least one failed operation, (J) at least one label is an alias, (K) at least one name that is an alias comes in a '
-        'form that is not exactly str')
+        'form that is not exactly str, (L) at least one key whose label / slice bound is spelt like an alias of the object')
 TRUSTED = ['pandas DataFrame.rename(columns=d) maps each label through d, leaves other labels and all data alone '
            '(exercised by the export oracle on every case)',
            'Python set/dict semantics as modelled (set intersection size, dict insertion order, later key wins)',
@@ -168,15 +189,20 @@ ASSUMPTIONS = ['ALIASES is a dict of str to str; alias names are not names of at
                '==/hash class), so the equal treatment of the forms is established by the harness, not by a theorem; the '
                'theorems resolve_reencode / constructor_reencode / ctor_reencode state that nothing in the model depends on '
                'the representation of a name',
+               '(L) a label is a period, whatever it is spelt like: only the first component of a tuple key is a name '
+               '(the reading of "label-indexed access through an alias": the alias is the name, the label is the label); '
+               'slices with step <= 0 and labels in a str form the class without the mixin rejects are compared with the '
+               'twin only (no absolute claim); NumPy broadcasts a length-1 sequence into a slice (not generated); spans '
+               'have no repeated labels; linkers: list / tuple spans only (HEAD compares submodel spans with `!=`)',
                'read/write = the four wrapped accessors, replace_values, constructor keywords and code that uses them '
                '(weaker reading); paths the mixin does not wrap are not claimed: `name in model`, eval() of an expression '
                'that spells an alias, reindex(**fill_values) keyed by an alias are not alias-aware on the current tree']
 
 META = {
-    "text": "Theorems for every alias map, store, value semantics and operation history. Alias stage of AliasMixin.__init__ (self-map filter, loop bounded by range(len(aliases)+1), else: raise ValueError, second filter), at full strength for EVERY dict: if no cycle remains after dropping the entries X -> X it returns the remaining aliases each pointing at the end of its chain (len+1 passes always suffice: pigeonhole, distances double per pass), otherwise it raises ValueError - ValueError iff a cycle remains, both directions; {'Y': 'Y'} yields the empty map, {'A': 'B', 'B': 'A'} raises; the filter after the loop is dead code, the one in front is not. On an instance map every read/write/label access/bulk replacement/constructor keyword through a name is the plain container's operation on resolve(name), for all histories (refinement), two spellings that resolve alike are indistinguishable, the index never changes and no attribute named like an alias is ever created; the export changes labels only (data, count, order kept), a changed label is an alias of the old one, labels stay distinct under the guard, the preferred name is chosen, ambiguous preferences are rejected by the constructor check (iff) and by the export. The model is tied to the code by exhaustive comparison over small alias maps (plain, self-maps, cycles) / preference lists and random histories; a twin-model oracle searches the real code, self-maps included. Export with options: the export is rename with a label map that depends on the instance only (export_is_rename), so for every combination of status / iterations / include_internal the aliased frame has exactly the columns and data of the plain frame with the same options (rename_only_opts), renaming commutes with the option-driven selection and with appending the solution columns, and whether it raises does not depend on the options. Class hierarchies: Cls.ALIASES is the nearest own declaration along the parents (class_aliases_nearest_declaration); for every history of class statements, constructor calls, re-assignments, in-place changes and deletions an instance holds the constructor's result on its own class's ALIASES / PREFERRED_NAMES as of its creation and keeps it (instance_uses_own_class_aliases, existing_instances_keep_their_map), the constructor never writes class-level state, so the order of instantiation is irrelevant (instantiation_order_irrelevant). Error paths (FsicModel/AliasFail.lean: the instance with self.names, self.aliases, self.preferred_names as fields of the state; accessors, eval, add_variable, preferred_names assignment, export, get_closest_match): every operation that fails leaves the instance exactly as it was - replace_values, which HEAD applies key by key, leaves exactly the assignments before the failing key and never touches names, alias map, preferences, index, strict (failed_op_preserves_state, failed_replace_is_prefix); reads never change anything (read_op_preserves_state); no operation, failed or not, changes the alias map, so resolution is a function of the alias map and the name alone after any history (resolution_depends_only_on_aliases); the object equals its plain twin driven through resolved names after every history of successful and failed operations, failing iff the twin fails with the same class (plain_twin_agrees, plain_twin_history). Constructor routes (FsicModel/AliasCtor.lean): every route that builds an instance - keywords, from_dataframe (column labels become keywords, spelled as they are; a keyword spelled like a column is Python's TypeError), linker, the export/import round trip - is construct o resolve-keys (ctor_routes_resolve_keys); when each variable is given once, columns / keywords named by ANY name resolving to a variable v initialise v with exactly that data, every other variable holds the default, and the result (instance or exception) is that of the class without the mixin on the canonically labelled table (from_dataframe_alias_columns); any name along a declared chain - 1, 2, 3 ... links - resolves on the instance like the start of the chain, so tables labelled anywhere along the chains build the same instance (chain_label_resolves, from_dataframe_chain_labels); importing the aliased export is importing the plain one and gives back the same values (export_import_round_trip, round_trip_same_values). Names are abstract: resolution, the constructor's alias stage and the constructor keywords commute with every injective re-encoding of the names (resolve_reencode, constructor_reencode, ctor_reencode); that Python's str forms of one name are one name for the code is checked by the harness (part K).",
+    "text": "Theorems for every alias map, store, value semantics and operation history. Alias stage of AliasMixin.__init__ (self-map filter, loop bounded by range(len(aliases)+1), else: raise ValueError, second filter), at full strength for EVERY dict: if no cycle remains after dropping the entries X -> X it returns the remaining aliases each pointing at the end of its chain (len+1 passes always suffice: pigeonhole, distances double per pass), otherwise it raises ValueError - ValueError iff a cycle remains, both directions; {'Y': 'Y'} yields the empty map, {'A': 'B', 'B': 'A'} raises; the filter after the loop is dead code, the one in front is not. On an instance map every read/write/label access/bulk replacement/constructor keyword through a name is the plain container's operation on resolve(name), for all histories (refinement), two spellings that resolve alike are indistinguishable, the index never changes and no attribute named like an alias is ever created; the export changes labels only (data, count, order kept), a changed label is an alias of the old one, labels stay distinct under the guard, the preferred name is chosen, ambiguous preferences are rejected by the constructor check (iff) and by the export. The model is tied to the code by exhaustive comparison over small alias maps (plain, self-maps, cycles) / preference lists and random histories; a twin-model oracle searches the real code, self-maps included. Export with options: the export is rename with a label map that depends on the instance only (export_is_rename), so for every combination of status / iterations / include_internal the aliased frame has exactly the columns and data of the plain frame with the same options (rename_only_opts), renaming commutes with the option-driven selection and with appending the solution columns, and whether it raises does not depend on the options. Class hierarchies: Cls.ALIASES is the nearest own declaration along the parents (class_aliases_nearest_declaration); for every history of class statements, constructor calls, re-assignments, in-place changes and deletions an instance holds the constructor's result on its own class's ALIASES / PREFERRED_NAMES as of its creation and keeps it (instance_uses_own_class_aliases, existing_instances_keep_their_map), the constructor never writes class-level state, so the order of instantiation is irrelevant (instantiation_order_irrelevant). Error paths (FsicModel/AliasFail.lean: the instance with self.names, self.aliases, self.preferred_names as fields of the state; accessors, eval, add_variable, preferred_names assignment, export, get_closest_match): every operation that fails leaves the instance exactly as it was - replace_values, which HEAD applies key by key, leaves exactly the assignments before the failing key and never touches names, alias map, preferences, index, strict (failed_op_preserves_state, failed_replace_is_prefix); reads never change anything (read_op_preserves_state); no operation, failed or not, changes the alias map, so resolution is a function of the alias map and the name alone after any history (resolution_depends_only_on_aliases); the object equals its plain twin driven through resolved names after every history of successful and failed operations, failing iff the twin fails with the same class (plain_twin_agrees, plain_twin_history). Constructor routes (FsicModel/AliasCtor.lean): every route that builds an instance - keywords, from_dataframe (column labels become keywords, spelled as they are; a keyword spelled like a column is Python's TypeError), linker, the export/import round trip - is construct o resolve-keys (ctor_routes_resolve_keys); when each variable is given once, columns / keywords named by ANY name resolving to a variable v initialise v with exactly that data, every other variable holds the default, and the result (instance or exception) is that of the class without the mixin on the canonically labelled table (from_dataframe_alias_columns); any name along a declared chain - 1, 2, 3 ... links - resolves on the instance like the start of the chain, so tables labelled anywhere along the chains build the same instance (chain_label_resolves, from_dataframe_chain_labels); importing the aliased export is importing the plain one and gives back the same values (export_import_round_trip, round_trip_same_values). Names are abstract: resolution, the constructor's alias stage and the constructor keywords commute with every injective re-encoding of the names (resolve_reencode, constructor_reencode, ctor_reencode); that Python's str forms of one name are one name for the code is checked by the harness (part K). Labels spelt like names (FsicModel/AliasLabel.lean: the instance of the value semantics in which the span is a list of NAMES, locate = first position of the label, closed label slices with step): label_not_resolved - for EVERY index (label or slice bounds, even members of keys a) the aliased read / write is the plain container's on resolve(name) with the same index; label_access_absolute / label_slice_absolute - it is element locate(span, l) (the cells range(i, j+1, step)) of the series stored under resolve(name), a write changes exactly that cell, a label outside the span is KeyError even if its target is a label; resolving_labels_reads_target / resolving_labels_differs / resolving_labels_differs_at_witness - a mixin that resolves every str of the key lands on the label's target and is a different container whenever that is another period holding another value or no period at all (concrete witness: span ['GDP','Y','C','p3','k1'], ALIASES {'GDP':'Y','cons':'C','k1':'zzz'}).",
     "design_ref": "DESIGN.md §5 M8, §6 C18, §7 row 14",
     "note": "Trusted: Lean kernel; axioms propext/Classical.choice/Quot.sound; the correspondence harness, which validates the hand-written model on generated cases only; pandas rename and Python dict/set semantics as modelled. Findings self-alias-hang / alias-cycle-hang fixed by ca9bf22 (a subprocess guard with a 3 s limit still watches for the hang; an in-process alarm backs it up). Guards: alias names are not variable/attribute names (no-duplicate-column claim, twin oracle). Open findings: add-variable-alias-name:unreachable, alias-name-is-object-attribute:getattr, variable-named-like-mixin-attribute:getattr.",
-    "technique": "Lean 4 proof (loop invariant with chain doubling, pigeonhole, refinement by induction over histories) + differential correspondence check + twin-model oracle + plain-twin / absolute-snapshot oracle over histories with failing operations + constructor-route twin/absolute oracle + four-object name-form oracle"
+    "technique": "Lean 4 proof (loop invariant with chain doubling, pigeonhole, refinement by induction over histories) + differential correspondence check + twin-model oracle + plain-twin / absolute-snapshot oracle over histories with failing operations + constructor-route twin/absolute oracle + four-object name-form oracle + name-labelled-span twin/absolute-cell oracle"
 }
 
 KEY_SELF_HANG = 'self-alias-hang'
@@ -2072,6 +2098,7 @@ def check_hierarchies(ctx, rep, rng, count, budget=None):
 
 import alias_failops as fo  # noqa: E402
 import alias_routes as ar  # noqa: E402
+import alias_labels as al  # noqa: E402
 
 
 def check_failops(ctx, rep, rng, count):
@@ -2184,7 +2211,11 @@ def legacy_g_jk(ctx, rep):
     part_jk(ctx, rep)
 
 
-LEGACY = [legacy_ad, legacy_e, legacy_g_jk, legacy_h]
+def part_l(ctx, rep):
+    al.check_label_spans(ctx, rep, ctx.sub_rng('label-spans'), (1200 if ctx.tier == 'quick' else 20000) * ctx.scale)
+
+
+LEGACY = [legacy_ad, legacy_e, legacy_g_jk, legacy_h, part_l]
 
 
 def run(ctx, rep):
@@ -2196,13 +2227,20 @@ def run(ctx, rep):
     fo.usable_member_names()
     framework.parallel(_run_parts, ctx, rep, parts=min(ctx.workers, 16))
     crashes = [x for x in rep.notes if x.startswith('CRASH ')]
-    if crashes and not rep.violations:
+    open_keys = {k['key'] for k in framework.load_known() if k['property'] == ID and k.get('status') == 'open'}
+    if crashes and not any(v['key'] not in open_keys for v in rep.violations):
+        # (violations that only reproduce open known findings do not explain a crash)
         raise RuntimeError(crashes[0])
     rep.notes.append(f'(G) {sum(v for k, v in rep.dist.items() if k.startswith("opts-kind:"))} objects (models, '
                      f'linkers, containers) x {len(OPT_COMBOS)} flag combinations x 2 spellings')
     rep.notes.append(f'(H) {rep.dist["hier-event:class"]} classes, {rep.dist["hier-event:new"]} constructor calls, '
                      f'{sum(v for k, v in rep.dist.items() if k.startswith("hier-change-after-instance:") and not k.endswith(":none"))} '
                      'class-level changes after the first instance')
+    rep.notes.append(f'(L) {sum(v for k, v in rep.dist.items() if k.startswith("label-span-kind:"))} objects on spans of names, '
+                     f'{sum(v for k, v in rep.dist.items() if k.startswith("label:alias-named:"))} key labels spelt like an alias, '
+                     f'{sum(v for k, v in rep.dist.items() if k.startswith("label-not-in-span:alias-named:"))} of them not in the '
+                     f'span, {rep.dist["label-absolute-checked"]} absolute cell checks, '
+                     f'{rep.dist["label-span-model-compared"]} histories also run through the model')
     rep.notes.append(f'(I) {sum(v for k, v in rep.dist.items() if k.startswith("failops-kind:"))} histories with failing '
                      f'operations, {sum(v for k, v in rep.dist.items() if k.startswith("failops-op:") and not k.endswith(":ok"))} '
                      f'failed operations, {rep.dist["failops-model-compared:True"]} histories also run through the model; '
@@ -2289,6 +2327,14 @@ def replay(ctx, rep, case):
             for x, impl, jc in tc:
                 print(f'  resolution through {jc["resolve_form"]}: model:', ctx.drive([line('alias_shorten', x)])[0].split('|')[-1],
                       '| impl:', impl)
+        except Exception as e:  # noqa: BLE001
+            print('  model: <driver unavailable>', e)
+    elif part == 'label-span':
+        tc = []
+        print('  regime:', al.run_label_case(ctx, rep, case, tc))
+        try:
+            for x, impl, _ in tc:
+                print('  model:', ctx.drive([line('alias_label_history', x)])[0], '\n  impl :', impl)
         except Exception as e:  # noqa: BLE001
             print('  model: <driver unavailable>', e)
     elif part == 'failops':
